@@ -14,6 +14,9 @@ HERE = os.path.dirname(os.path.abspath(__file__))
 VERIF = os.path.dirname(HERE)
 
 
+ALL = ["C01", "C02", "C04", "C05", "C06", "C07", "C08", "C11", "C12", "C13", "C14", "C15", "C16", "C17", "C18", "C19", "C20"]
+
+
 def main():
     eqs = json.load(open(os.path.join(HERE, "equivalents.json")))
     sel = sys.argv[1:]
@@ -27,7 +30,14 @@ def main():
         for m in eqs:
             saved = {}
             ok_apply = True
-            for e in m["edits"]:
+            if m.get("patch"):
+                # a stored diff (written by a sub-agent asked for behaviour-preserving housekeeping): applied with patch(1)
+                r = subprocess.run(["patch", "-p1", "-s", "-i", os.path.join(HERE, m["patch"])], cwd=base,
+                                   stdout=subprocess.PIPE, stderr=subprocess.STDOUT, text=True)
+                if r.returncode != 0:
+                    print("EQUIV %-45s cannot apply: %s" % (m["name"], r.stdout.strip().splitlines()[-1:]))
+                    ok_apply = False
+            for e in m.get("edits", []):
                 p = os.path.join(base, e["file"])
                 src = open(p).read()
                 saved.setdefault(p, src)
@@ -37,7 +47,8 @@ def main():
                     break
                 open(p, "w").write(src.replace(e["old"], e["new"]))
             if ok_apply:
-                for prop in m["properties"]:
+                props = ALL if m["properties"] == "ALL" else m["properties"]
+                for prop in props:
                     r = subprocess.run([os.path.join(VERIF, "check"), prop, "--repo", base, "--evidence-dir", os.path.join(tmp, "ev")],
                                        stdout=subprocess.PIPE, stderr=subprocess.STDOUT, text=True)
                     if r.returncode == 0:
@@ -50,6 +61,8 @@ def main():
                 bad += 1
             for p, src in saved.items():
                 open(p, "w").write(src)
+            if m.get("patch"):
+                subprocess.check_call(["rsync", "-a", "--delete", "--exclude", "target", "--exclude", ".git", "/repo/", base + "/"])
     finally:
         shutil.rmtree(tmp, ignore_errors=True)
     print("%d equivalents, %d alarms" % (len(eqs), bad))
